@@ -123,6 +123,8 @@ func genBatch(r *rand.Rand, mode string) (BatchCfg, *BatchScript) {
 			o := Outcome{Out: "ok"}
 			if r.Float64() < pFail {
 				o.Out = "err"
+			} else if c.ExSty == "r" && r.Intn(12) == 0 {
+				o.Out = "eres" // an error Result with a nil error
 			}
 			is.Execs = append(is.Execs, o)
 		}
@@ -197,13 +199,22 @@ func init() {
 					cfg := base
 					vi++
 					cfg.ExSty = []string{"r", "a"}[(vi+v)%2]
+					for _, o := range base.Outs {
+						if o == "eres" {
+							cfg.ExSty = "r"
+						}
+					}
 					cfg.Shape = []string{"results", "anys", "results", "ptrs", "maps", "strings", "ints"}[(vi+3*v)%7]
 					cfg.Via = []string{"builder", "node"}[(vi/2+v)%2]
 					if cfg.Cancel || cfg.Ctx0 {
 						cfg.CtxKind = []string{"cancel", "deadline"}[v]
 					}
 					cfg.Sched = "script"
+					if tooManyHangs() {
+						break
+					}
 					evs := runBatchScenario(cfg, sc, seed)
+					noteHang(evs)
 					emit(cfg, "tlc", sc, exp, evs)
 				}
 			}
@@ -214,8 +225,12 @@ func init() {
 			}
 			r := rand.New(rand.NewSource(seed*7919 + int64(mi)))
 			for i := 0; i < count; i++ {
+				if tooManyHangs() {
+					break
+				}
 				cfg, sc := genBatch(r, mode)
 				evs := runBatchScenario(cfg, sc, r.Int63())
+				noteHang(evs)
 				emit(cfg, "gen:"+mode, sc, nil, evs)
 			}
 		}
